@@ -6,6 +6,9 @@ from engine.core import shard_map
 from engine.tlc import MachineryError
 
 
+MIXED_LISTS = {"L1a"}          # first element int, another element not a number
+
+
 def klass(name):
     if ":" in name:
         return name
@@ -44,6 +47,9 @@ def run(prop, tier, seed, ctx):
     ctx.count(len(cases), (json.dumps([r["a"], r["l"], r["r"], r["cases"]]) for _, r in cases if r["l"] != r["r"] or r["kind"] == "unit_test"))
     ctx.sample({"kind": "cell", "case": {k: res.records[7][k] for k in ("a", "l", "r", "verdict", "holds")}})
     ctx.cov["exhaustive"] = True
+    # cells that are wrong without any presentation keyword are keyed by the cell, not by the keyword they happened to carry
+    plain_bad = {(m["case"]["a"], m["case"]["l"], m["case"]["r"]) for m in mism
+                 if m["case"]["kind"] != "unit_test" and not m["observed"].get("keyword")}
     for m in mism:
         c = m["case"]
         if c["kind"] == "unit_test":
@@ -51,8 +57,10 @@ def run(prop, tier, seed, ctx):
             what = "unit_test with case outcomes %s: returned %s (expected %s / %d passed)" % (c["cases"], m["observed"], m["expected"], c["passed"])
         else:
             key = "C07|%s|%s|%s|holds=%s" % (c["a"], klass(c["l"]), klass(c["r"]) if c["a"] not in ("is_none", "is_not_none", "true", "false") else "-", m["holds"])
-            if m["observed"].get("keyword"):
+            if m["observed"].get("keyword") and (c["a"], c["l"], c["r"]) not in plain_bad:
                 key = "C07|keyword|%s|holds=%s" % (m["observed"]["keyword"], m["holds"])
+            if c["a"] in ("type", "not_type") and c["l"] in MIXED_LISTS and c["r"].endswith("list_int"):
+                key = "C07|type|mixed-list-typed-by-first-element"
             if c["a"] in ("is_instance", "not_is_instance") and c["r"] in ("t:int", "t:float") and klass(c["l"]) in ("int", "float", "bool"):
                 key = "C07|is_instance|int-float-interchangeable"
             what = "assert_%s(%s, %s) with wrapping %s: %s but the relation %s (expected %s); status=%s" % (
